@@ -177,6 +177,34 @@ func (r *QRunner) queueMisuse() *Violation {
 	}
 	cells++
 
+	// a pristine handle: reader and acker are created lazily, so on a handle on which neither
+	// Reader() nor ACK()/Active()/Pending() was ever called before Close, everything obtained
+	// after Close must be closed as well (and must not touch the file)
+	if v := r.openQueue(); v != nil {
+		return v
+	}
+	q2 := r.Q
+	if v := r.closeQueue(); v != nil {
+		return v
+	}
+	for _, v := range []*Violation{
+		expect("Queue.Reader().Begin after Close of a handle whose reader was never requested", func() error { return q2.Reader().Begin() }, "ReaderClosed"),
+		expect("Queue.Reader().Next after Close of a handle whose reader was never requested", func() error { _, err := q2.Reader().Next(); return err }, "ReaderClosed"),
+		expect("Queue.ACK(1) after Close of a handle whose acker was never requested", func() error { return q2.ACK(1) }, "QueueClosed"),
+		expect("Queue.Writer() after Close of a handle whose writer was never requested", func() error {
+			w2, err := q2.Writer()
+			if err != nil {
+				return err
+			}
+			_, err = w2.Write(buf)
+			return err
+		}, "QueueClosed", "WriterClosed"),
+	} {
+		if v != nil {
+			return v
+		}
+	}
+
 	// reopen: the queue still holds exactly the model's events
 	if v := r.openQueue(); v != nil {
 		return v
